@@ -106,6 +106,7 @@ func main() {
 
 	var sites []site
 	next := 0
+	timeRewrites := 0
 	for _, path := range files {
 		fset := token.NewFileSet()
 		f, err := parser.ParseFile(fset, path, nil, parser.ParseComments)
@@ -193,6 +194,31 @@ func main() {
 		}
 		for _, d := range f.Decls {
 			walk(d)
+		}
+		// the clock seam: the library must not read the wall clock on its own
+		usesTime := false
+		for _, im := range f.Imports {
+			if im.Path.Value == `"time"` && im.Name == nil {
+				usesTime = true
+			}
+		}
+		if usesTime {
+			ast.Inspect(f, func(n ast.Node) bool {
+				if ce, ok := n.(*ast.CallExpr); ok {
+					if se, ok := ce.Fun.(*ast.SelectorExpr); ok {
+						if id, ok := se.X.(*ast.Ident); ok && id.Name == "time" && se.Sel.Name == "Now" && len(ce.Args) == 0 {
+							se.X = ast.NewIdent("zzsimhook")
+							next0 := next
+							_ = next0
+							timeRewrites++
+						}
+					}
+				}
+				return true
+			})
+			// keep the import used
+			f.Decls = append(f.Decls, &ast.GenDecl{Tok: token.VAR, Specs: []ast.Spec{&ast.ValueSpec{
+				Names: []*ast.Ident{ast.NewIdent("_")}, Type: &ast.SelectorExpr{X: ast.NewIdent("time"), Sel: ast.NewIdent("Duration")}}}})
 		}
 		if dense {
 			hookCall := func(name string) ast.Stmt {
@@ -288,7 +314,7 @@ func main() {
 				return true
 			})
 		}
-		if next == before {
+		if next == before && !usesTime {
 			continue
 		}
 		// free-floating comments inside bodies confuse the printer once
@@ -325,6 +351,19 @@ func main() {
 	src := `// Package zzsimhook is generated by /verif/tools/instrument into a scratch
 // copy of the repository; it never exists in the repository itself.
 package zzsimhook
+
+import "time"
+
+// NowHook is the clock seam: time.Now() calls in the instrumented copy go
+// through Now(). Without a hook the clock stands still at a fixed instant.
+var NowHook func() time.Time
+
+func Now() time.Time {
+	if h := NowHook; h != nil {
+		return h()
+	}
+	return time.Unix(1700000000, 0)
+}
 
 // Hook is installed by the simulator. nil (the default) disables every yield.
 var Hook func(site int)
@@ -373,5 +412,5 @@ const Dense = ` + strconv.FormatBool(dense) + `
 		fmt.Fprintln(os.Stderr, "instrument:", err)
 		os.Exit(2)
 	}
-	fmt.Printf("instrument: %d sites in %d files (module %s)\n", next, len(files), mod)
+	fmt.Printf("instrument: %d sites in %d files, %d time.Now() calls redirected (module %s)\n", next, len(files), timeRewrites, mod)
 }
